@@ -1,9 +1,70 @@
 package main
 
+import (
+	"fmt"
+	"go/token"
+	"go/types"
+	"sort"
+
+	"golang.org/x/tools/go/ssa"
+)
+
 func init() {
 	propExtras["C12"] = func(cc *CheckCtx) {
 		cc.runBounded(BoundedSpec{Name: "cmp-laws", PkgDir: "object", File: "c12_cmp_test.go", Test: "TestVerifBoundedCmpLaws",
 			Contract: "order laws of object.Cmp / object.Equals (range, reflexive, antisymmetric, transitive, Equals an equivalence implying Cmp==0, no panic) including containers"})
+		// comparing never panics: Go's == on two interface values panics when their common dynamic type holds a slice, map
+		// or function (object.Function, object.Error, large arrays, maps); Cmp / Equals and everything they call in
+		// package object must not use it on object values
+		{
+			p := cc.P
+			var roots []*ssa.Function
+			for _, f := range p.allFuncs("object") {
+				if f.Parent() == nil && (f.Name() == "Cmp" || f.Name() == "Equals" || f.Name() == "CompareKeys") && f.Signature.Recv() == nil {
+					roots = append(roots, f)
+				}
+			}
+			var bad []string
+			n := 0
+			for f := range p.reachableFrom(roots) {
+				if !p.inRepo(f) || f.Pkg == nil || f.Pkg.Pkg.Path() != "grol.io/grol/object" {
+					continue
+				}
+				n++
+				for _, b := range f.Blocks {
+					for _, ins := range b.Instrs {
+						bo, ok := ins.(*ssa.BinOp)
+						if !ok || (bo.Op != token.EQL && bo.Op != token.NEQ) {
+							continue
+						}
+						_, xi := bo.X.Type().Underlying().(*types.Interface)
+						_, yi := bo.Y.Type().Underlying().(*types.Interface)
+						_, xc := bo.X.(*ssa.Const)
+						_, yc := bo.Y.(*ssa.Const)
+						if xi && yi && !xc && !yc {
+							// error values compared with == are not object values
+							if bo.X.Type().String() == "error" {
+								continue
+							}
+							// one side is a concrete comparable value boxed for the comparison (v == r with r a Reference):
+							// the dynamic types are equal only when both are that comparable type
+							safe := false
+							for _, side := range []ssa.Value{bo.X, bo.Y} {
+								if mi, isMI := side.(*ssa.MakeInterface); isMI && types.Comparable(mi.X.Type()) {
+									safe = true
+								}
+							}
+							if safe {
+								continue
+							}
+							bad = append(bad, f.Name()+" at "+p.posOf(ins))
+						}
+					}
+				}
+			}
+			sort.Strings(bad)
+			cc.audit("no-interface-equality", len(bad) == 0 && len(roots) >= 2, fmt.Sprintf("none of the %d functions of package object reachable from Cmp / Equals applies Go's == or != to two interface values (which panics on functions, errors, large arrays and maps of equal dynamic type); found: %v", n, bad), "")
+		}
 		cc.Assume = append(cc.Assume,
 			"C12: cmp.Compare[float64|int64|string] are given their documented semantics (NaN lowest and equal to itself; strings an uninterpreted total order compatible with content equality)",
 			"C12: the laws are proved for scalar operands (INTEGER, FLOAT, BOOLEAN, NIL, STRING, ERROR); for containers only the bounded evaluation applies",
